@@ -226,6 +226,15 @@ fn fresh_dir() -> PathBuf {
 }
 
 pub fn install_hooks() {
+    // process ids are reused: never inherit a scratch directory from an earlier process, and
+    // leave none behind
+    let _ = std::fs::remove_dir_all(scratch_root());
+    extern "C" fn cleanup() {
+        let _ = std::fs::remove_dir_all(scratch_root());
+    }
+    unsafe {
+        libc::atexit(cleanup);
+    }
     brush_core::verif::install(brush_core::verif::Hooks {
         active: world::is_active,
         task_spawn: world::task_spawn,
